@@ -86,6 +86,7 @@ def lattice(tier):
 def cases(tier):
     out = []
     P = lattice(tier)
+    out.append(dict(kind='tt-small', form='tang_toennies', tier=tier, params=[list(v) for v in P['tang_toennies'] if v[0] and v[1] > 0] + [[41.96, 2.523, 1.461, 14.11, 183.6], [1.1e2, 2.2, 6.4, 90.0, 1500.0]]))
     for name in sorted(P):
         vecs = P[name]
         bs = 24
@@ -207,7 +208,52 @@ def route_values(name, vecs, rs):
     return out
 
 
+def tt_exact(r, A, b, C6, C8, C10):
+    """the documented Tang-Toennies sum in 80-digit decimal arithmetic (no cancellation)"""
+    from decimal import Decimal, getcontext
+    getcontext().prec = 80
+    R = Decimal(repr(float(r))) / Decimal('0.5292')
+    x = Decimal(repr(float(b))) * R
+    ex = (-x).exp()
+    out = Decimal(repr(float(A))) * ex
+    for n, C in ((3, C6), (4, C8), (5, C10)):
+        term, ssum = Decimal(1), Decimal(0)
+        for k in range(2 * n + 1):
+            if k > 0:
+                term = term * x / k
+            ssum += term
+        out -= (1 - ex * ssum) * Decimal(repr(float(C))) / R ** (2 * n)
+    return float(out * Decimal('27.211'))
+
+
+TT_SMALL_R = [0.1, 0.11, 0.12, 0.13, 0.15, 0.2, 0.3, 0.5, 0.65]
+
+
+def run_tt_small(case):
+    """0.1 <= r < 0.8 A, where the double-precision evaluation of the defining sum cancels: agreement with the exact sum to 1e-4 relative
+    (the implementation is good to ~3e-6 at 0.1 A and better beyond; below 0.1 A nothing is demanded)"""
+    import atsim.potentials.potentialfunctions as pf
+    import atsim.potentials.potentialforms as pforms
+    viol, n = [], 0
+    for p in case['params']:
+        for r in TT_SMALL_R:
+            want = tt_exact(r, *p)
+            for route, got in (('function', pf.tang_toennies(r, *p)), ('factory', pforms.tang_toennies(*p)(r))):
+                n += 1
+                if not abs(got - want) <= 1e-4 * abs(want) + 1e-9:
+                    viol.append(dict(sig='value:tang_toennies-small-r', msg='as.tang_toennies%r at r=%r via %s: %r, the defining sum (80-digit arithmetic) gives %r' % (tuple(p), r, route, got, want), detail={}))
+                    break
+            else:
+                continue
+            break
+        if viol:
+            break
+    return dict(outcome='ok:tt-small' if not viol else 'violation', nontrivial=True, evals=n, violations=viol)
+
+
 def run_case(case):
+    if case.get('kind') == 'tt-small':
+        return run_tt_small(case)
     name, vecs = case['form'], [tuple(p) for p in case['params']]
     rs = R_QUICK if case.get('tier', 'quick') == 'quick' else R_THOROUGH
     if name == 'tang_toennies':
